@@ -107,6 +107,21 @@ def d1_no_mutation(ctx):
     ctx.check(ok, fi, dd[0].stmt if dd else fi.node, dd[0].stmt if dd else "do_fft", "the transform path is taken exactly for real input", "do_fft is not `input is not complex`", key="do_fft")
 
 
+DTYPE_PRESERVING = ("roll", "copy", "flip", "flipud", "fliplr", "ascontiguousarray", "squeeze", "reshape", "transpose", "take", "ravel")
+
+
+def _dtype_source(e):
+    """x for roll(x, ..) / x.copy() / ... : calls whose result has the dtype of their (first) array argument."""
+    while isinstance(e, ast.Call) and call_name(e) in DTYPE_PRESERVING:
+        if isinstance(e.func, ast.Attribute) and not (isinstance(e.func.value, ast.Name) and e.func.value.id in ("np", "numpy", "gp", "scipy")):
+            e = e.func.value
+        elif e.args:
+            e = e.args[0]
+        else:
+            break
+    return e
+
+
 def d2_restore(ctx):
     ctx.rule("D2", "irfft gets (ns, axis); result cast to the input dtype on the real path and returned")
     repo = ctx.repo
@@ -135,7 +150,7 @@ def d2_restore(ctx):
                 continue
             n_real += 1
             okc = isinstance(v, ast.Call) and call_name(v) == "astype" and len(v.args) == 1 and isinstance(v.args[0], ast.Attribute) and v.args[0].attr == "dtype" \
-                and loc_name(v.args[0].value) == fi.params[0]
+                and loc_name(_dtype_source(v.args[0].value)) == fi.params[0]
             ctx.check(okc, fi, r, v, "real results are cast back to the input dtype and returned",
                       "the result is not cast back to the input's dtype (float32 in, float64 out)", key="dtype")
     if n_real == 0:
@@ -152,28 +167,44 @@ def d3_broadcast(ctx):
     cfg = CFG(fi.node)
     du = DefUse(fi.node, cfg)
     # every s.reshape(<shape var>) : the shape var must be array(w.shape) with [axis] = 1 stored before, and the call must sit on the non-scalar path
-    rs = [c for c in find(fi.node, ast.Call, nested=False) if call_name(c) == "reshape" and isinstance(c.func, ast.Attribute) and loc_name(c.func.value) == "s" and c.args]
+    sp = fi.params[1] if len(fi.params) > 1 else "s"
+    rs = []   # (call, shape argument)
+    for c in find(fi.node, ast.Call, nested=False):
+        if call_name(c) != "reshape":
+            continue
+        if isinstance(c.func, ast.Attribute) and loc_name(c.func.value) == sp and c.args:
+            rs.append((c, c.args[0]))                      # s.reshape(shape)
+        elif len(c.args) >= 2 and loc_name(c.args[0]) == sp:
+            rs.append((c, c.args[1]))                      # np.reshape(s, shape)
     if not rs:
-        ctx.violation(fi, fi.node, "s.reshape(s_shape)", "per-trace shifts are never reshaped for broadcasting along the non-shift axes", key="broadcast")
+        ctx.violation(fi, fi.node, "s.reshape(<w.shape with [axis] = 1>)", "per-trace shifts are never reshaped for broadcasting along the non-shift axes", key="broadcast", name_free=True)
         return
-    for c in rs:
-        shp = loc_name(c.args[0])
+    from sa import guards as GD
+    for c, sharg in rs:
+        shp = loc_name(sharg)
         ok = shp is not None
         detail = ""
         if ok:
             sd = [d for d in du.reaching(shp, c) if d.kind == "assign"]
-            ok = bool(sd) and all(d.value is not None and "w.shape" in src(d.value) for d in sd)
+            ok = bool(sd) and all(d.value is not None and f"{fi.params[0]}.shape" in src(d.value) for d in sd)
             st = [n for n in walk_function(fi.node) if isinstance(n, ast.Assign) and isinstance(n.targets[0], ast.Subscript) and loc_name(n.targets[0].value) == shp
                   and loc_name(n.targets[0].slice) == "axis" and const_value(n.value) == (True, 1)]
-            ok = ok and bool(st) and cfg.must_pass([cfg.node_for(st[0])], cfg.node_for(c))
+            ok = ok and bool(st) and any(cfg.must_pass([cfg.node_for(x)], cfg.node_for(c)) and all(cfg.reachable(d.node, cfg.node_for(x)) or d.node.id == cfg.node_for(x).id for d in sd)
+                                         for x in st)
             if not st:
                 detail = f"{shp}[axis] = 1 is missing"
-        gs = []
-        for t, pol in cfg.guards(cfg.node_for(c)):
-            gs += conjuncts(t, pol)
-        nonscalar = any(isinstance(t, ast.Call) and call_name(t) == "isscalar" and loc_name(t.args[0]) == "s" and not pol for t, pol in gs)
+        # the reshape sits on the path taken for non-scalar shifts: np.isscalar(s) is false there (directly or through a flag holding it)
+        at = GD.Atoms()
+        pc = GD.path_condition(cfg, cfg.node_for(c), at)
+        nonscalar = False
+        for k in GD.atoms_of(pc):
+            a = at.exprs.get(k)
+            a = expand_name(du, a, c) if isinstance(a, ast.Name) else a
+            if isinstance(a, ast.Call) and call_name(a) == "isscalar" and a.args and loc_name(a.args[0]) == sp and GD.entails(pc, GD.Not(GD.Atom(k))) is True:
+                nonscalar = True
         ctx.check(ok and nonscalar, fi, c, c, "each trace receives its own shift (broadcast across the shift axis)",
-                  f"per-trace shifts are not reshaped to w.shape with the shift axis set to 1 ({detail or 'shape / guard not as required'}): shifts are broadcast along the wrong axis", key="broadcast")
+                  f"per-trace shifts are not reshaped to w.shape with the shift axis set to 1 ({detail or 'shape / guard not as required'}): shifts are broadcast along the wrong axis", key="broadcast",
+                  name_free=True)
 
 
 def d4_sign(ctx):
@@ -195,17 +226,38 @@ def d4_sign(ctx):
     ctx.check(p == want, fi, exps[0], f"exponent = {p}", "positive s delays the signal (phase = +angle of a one-sample delay times s)",
               f"phase exponent normalises to {p}, expected {want}: the shift direction or scale is wrong", key="phase")
     ang = [c for c in find(exps[0], ast.Call) if call_name(c) == "angle"]
-    ok = bool(ang) and loc_name(ang[0].args[0]) == "dephas"
-    puts = [c for c in find(fi.node, ast.Call, nested=False) if call_name(c) == "put" and c.args and loc_name(c.args[0]) == "dephas"]
-    ok = ok and bool(puts) and const_value(puts[0].args[1]) == (True, 1) and const_value(puts[0].args[2]) == (True, 1)
-    dd = [d for d in du.defs if d.var == "dephas" and d.kind == "assign"]
-    ok = ok and any(isinstance(d.value, ast.Call) and call_name(d.value) == "zeros" for d in dd) and \
-        any(isinstance(d.value, ast.Call) and call_name(d.value) == "rfft" and loc_name(kwarg(d.value, "axis")) == "axis" for d in dd)
+    # provenance of the angle's argument: rfft(IMP, axis=axis) - written in place or held in a local (possibly IMP's own name) - with IMP = zeros(SHP), np.put(IMP, 1, 1)
+    ok = False
+    puts = []
+    imp = None
+    if ang and ang[0].args:
+        a0 = ang[0].args[0]
+        cands = []
+        if isinstance(a0, ast.Call) and call_name(a0) == "rfft":
+            cands = [a0]
+        elif isinstance(a0, ast.Name):
+            cands = [d.value for d in du.defs if d.var == a0.id and d.kind == "assign" and isinstance(d.value, ast.Call) and call_name(d.value) == "rfft"]
+        for rf in cands:
+            if rf.args and loc_name(kwarg(rf, "axis")) == "axis" and isinstance(rf.args[0], ast.Name):
+                imp = rf.args[0].id
+                puts = [c for c in find(fi.node, ast.Call, nested=False) if call_name(c) == "put" and c.args and loc_name(c.args[0]) == imp]
+                zdefs = [d for d in du.defs if d.var == imp and d.kind == "assign" and isinstance(d.value, ast.Call) and call_name(d.value) == "zeros"]
+                ok = bool(puts) and len(puts[0].args) >= 3 and const_value(puts[0].args[1]) == (True, 1) and const_value(puts[0].args[2]) == (True, 1) and bool(zdefs)
+                if ok:
+                    break
     ctx.check(ok, fi, puts[0] if puts else fi.node, puts[0] if puts else "np.put(dephas, 1, 1)", "ramp = angle of the rfft (along axis) of a unit impulse at sample 1",
-              "the phase ramp is not the transform of a unit impulse at index 1 along the shift axis", key="impulse")
-    shp = [n for n in walk_function(fi.node) if isinstance(n, ast.Assign) and isinstance(n.targets[0], ast.Subscript) and loc_name(n.targets[0].value) == "shape"]
-    ctx.check(bool(shp) and loc_name(shp[0].targets[0].slice) == "axis" and loc_name(shp[0].value) == "ns", fi, shp[0] if shp else fi.node, shp[0] if shp else "shape[axis] = ns",
-              "impulse vector has ns samples along the shift axis and 1 elsewhere", "impulse vector is not ns long along the shift axis", key="impulse-shape")
+              "the phase ramp is not the transform of a unit impulse at index 1 along the shift axis", key="impulse", name_free=True)
+    # the impulse vector is ns long along the shift axis: zeros(SHP) with SHP[axis] = ns stored before
+    okshape = False
+    shp = []
+    if imp:
+        for d in [d for d in du.defs if d.var == imp and d.kind == "assign" and isinstance(d.value, ast.Call) and call_name(d.value) == "zeros"]:
+            sn = loc_name(d.value.args[0]) if d.value.args else None
+            shp = [n for n in walk_function(fi.node) if isinstance(n, ast.Assign) and isinstance(n.targets[0], ast.Subscript) and loc_name(n.targets[0].value) == sn
+                   and loc_name(n.targets[0].slice) == "axis" and loc_name(n.value) == "ns"]
+            okshape = bool(shp) and any(du.cfg.must_pass([du.cfg.node_for(x)], d.node) for x in shp)
+    ctx.check(okshape, fi, shp[0] if shp else fi.node, shp[0] if shp else "shape[axis] = ns",
+              "impulse vector has ns samples along the shift axis and 1 elsewhere", "impulse vector is not ns long along the shift axis", key="impulse-shape", name_free=True)
     fw = repo.fn("ibldsp.waveforms.wave_shift_corrmax")
     duw = DefUse(fw.node)
     calls = resolved_calls(repo, fw, FN)
@@ -391,6 +443,102 @@ def _argmax_offset(du, e, at, depth=6):
     return None
 
 
+TRUNC = ("int", "trunc", "fix")
+FLOOR = ("floor",)
+
+
+def _round_kind(e, var):
+    """How an expression turns the shift `var` into whole samples: 'trunc' | 'floor' | 'round' | 'ceil' | None."""
+    cur = e
+    kind = None
+    while isinstance(cur, ast.Call) and cur.args:
+        nm = call_name(cur)
+        if nm in ("int", "float", "int32", "int64", "asarray", "array"):
+            # int() of an already rounded value keeps that rounding; int() directly on the shift truncates
+            inner = cur.args[0]
+            if nm == "int" and loc_name(inner) == var:
+                return "trunc"
+            cur = inner
+            continue
+        if nm in ("trunc", "fix"):
+            kind = kind or "trunc"
+        elif nm == "floor":
+            kind = kind or "floor"
+        elif nm in ("round", "rint", "around"):
+            kind = kind or "round"
+        elif nm == "ceil":
+            kind = kind or "ceil"
+        else:
+            return None
+        cur = cur.args[0]
+    if isinstance(cur, ast.BinOp) and isinstance(cur.op, ast.FloorDiv) and loc_name(cur.left) == var and const_value(cur.right) == (True, 1):
+        return kind or "floor"
+    if loc_name(cur) == var:
+        return kind
+    return None
+
+
+def _remainder_kind(e, var, whole):
+    """Which whole part an expression for the remaining fractional shift presupposes: s % 1 = s - floor(s); fmod(s, 1) = s - trunc(s); s - W = that of W."""
+    if isinstance(e, ast.BinOp) and isinstance(e.op, ast.Mod) and loc_name(e.left) == var and const_value(e.right) == (True, 1):
+        return "floor"
+    if isinstance(e, ast.Call) and e.args and len(e.args) >= 2 and loc_name(e.args[0]) == var and const_value(e.args[1]) == (True, 1):
+        if call_name(e) in ("mod", "remainder"):
+            return "floor"
+        if call_name(e) == "fmod":
+            return "trunc"
+    if isinstance(e, ast.BinOp) and isinstance(e.op, ast.Sub) and loc_name(e.left) == var:
+        if whole is not None and norm(e.right) == norm(whole):
+            return "same"
+        return _round_kind(e.right, var)
+    return None
+
+
+def d6_whole_fraction(ctx):
+    ctx.rule("D6", "a shift applied in two parts - whole samples by np.roll, the rest by the phase ramp - adds up to the requested shift (the rounding of the whole "
+                   "part and the remainder agree for negative non-integer shifts too)")
+    repo = ctx.repo
+    fi = repo.fn(FN)
+    du = DefUse(fi.node)
+    sp = fi.params[1] if len(fi.params) > 1 else "s"
+    rolls = [c for c in find(fi.node, ast.Call, nested=False) if call_name(c) == "roll" and len(c.args) >= 2]
+    if not rolls:
+        ctx.ok(fi, fi.node, "no np.roll in fshift", "the whole shift goes through the phase ramp", key="split:none")
+        return
+    for c in rolls:
+        k = c.args[1]
+        if not any(isinstance(n, ast.Name) and n.id == sp for n in ast.walk(k)):
+            continue
+        wk = _round_kind(k, sp)
+        st = du.cfg.node_for(c).stmt
+        # the remainder: the value bound to the shift by the same statement (tuple assignment) or by the next assignment to it
+        rem = None
+        if isinstance(st, ast.Assign) and isinstance(st.targets[0], ast.Tuple) and isinstance(st.value, ast.Tuple) and len(st.targets[0].elts) == len(st.value.elts):
+            for t, v in zip(st.targets[0].elts, st.value.elts):
+                if loc_name(t) == sp:
+                    rem = v
+        if rem is None:
+            later = [d for d in du.defs if d.var == sp and d.kind in ("assign", "aug") and d.stmt is not None and du.cfg.reachable(du.cfg.node_for(c), d.node)]
+            if later and later[0].kind == "assign":
+                rem = later[0].value
+            elif later and isinstance(later[0].stmt, ast.AugAssign) and isinstance(later[0].stmt.op, ast.Sub):
+                rem = ast.BinOp(left=ast.Name(id=sp, ctx=ast.Load()), op=ast.Sub(), right=later[0].stmt.value)
+                if isinstance(later[0].stmt.op, ast.Mod):
+                    rem = ast.BinOp(left=ast.Name(id=sp, ctx=ast.Load()), op=ast.Mod(), right=later[0].stmt.value)
+        if rem is None:
+            ctx.violation(fi, c, c, f"`{src(c)}` applies whole samples of the shift but the shift handed to the phase ramp is not reduced: the whole part is applied twice",
+                          key="split:no-remainder", name_free=True)
+            continue
+        rk = _remainder_kind(rem, sp, k)
+        if wk is None or rk is None:
+            raise AnalysisError(f"fshift: whole / fractional split `{src(k)}` + `{src(rem)}` not understood")
+        ok = rk == "same" or rk == wk
+        ctx.check(ok, fi, st, f"roll by {src(k)} ; remainder {src(rem)}", "whole part and remainder add up to the shift for every sign",
+                  f"the whole part `{src(k)}` rounds {'toward zero' if wk == 'trunc' else wk} but the remainder `{src(rem)}` is the shift minus its {rk}: for a negative non-integer shift "
+                  f"(e.g. -2.5 -> roll by {'-2' if wk == 'trunc' else '-3'}, remainder {'+0.5' if rk == 'floor' else '-0.5'}) the two parts are one whole sample apart from the request",
+                  key="split", name_free=True)
+
+
 def d5_parabolic_edges(ctx):
     ctx.rule("D5", "parabolic_max falls back to the raw sample exactly when the arg-max is the first or the last sample (imax == 0 | imax == ns - 1)")
     repo = ctx.repo
@@ -418,6 +566,7 @@ def d5_parabolic_edges(ctx):
 
 def run(ctx):
     ctx.run(d5_parabolic_edges)
+    ctx.run(d6_whole_fraction)
     ctx.run(d1_no_mutation)
     ctx.run(d2_restore)
     ctx.run(d3_broadcast)
